@@ -108,7 +108,11 @@ func main() {
 			}
 			switch tier {
 			case "quick":
-				cfg.Budget = time.Duration(envInt("VERIF_BUDGET_S", 40)) * time.Second
+				quickS := 60
+				if os.Args[2] == "C18" {
+					quickS = 90 // a history step costs a process of its own for the reference, and there are a dozen job themes
+				}
+				cfg.Budget = time.Duration(envInt("VERIF_BUDGET_S", quickS)) * time.Second
 				cfg.MinRuns = 200
 				cfg.ShrinkFor = 60 * time.Second
 			case "thorough":
